@@ -101,10 +101,13 @@ def _is_boolish(e) -> bool:
     constants and pure builtins (no other calls, no awaits, no walrus)."""
     for x in ast.walk(e):
         if isinstance(x, ast.Call):
-            if not (isinstance(x.func, ast.Name) and x.func.id in _PURE_BUILTINS):
+            is_get = isinstance(x.func, ast.Attribute) and x.func.attr == "get" and 1 <= len(x.args) <= 2 and not x.keywords and all(isinstance(a, ast.Constant) for a in x.args)
+            if not ((isinstance(x.func, ast.Name) and x.func.id in _PURE_BUILTINS) or is_get):
                 return False
         if isinstance(x, (ast.Await, ast.Yield, ast.YieldFrom, ast.NamedExpr, ast.Lambda, ast.ListComp, ast.SetComp, ast.DictComp, ast.GeneratorExp, ast.Starred)):
             return False
+    if isinstance(e, ast.Call) and isinstance(e.func, ast.Attribute) and e.func.attr == "get":
+        return True  # option = settings.get("key", default) read by the adjacent test
     return isinstance(e, (ast.BoolOp, ast.Compare, ast.BinOp, ast.UnaryOp))
 
 
@@ -165,6 +168,71 @@ def inline_condition_temps(tree: ast.AST) -> int:
                     b[j].test = R().visit(b[j].test)
                     ast.fix_missing_locations(b[j])
                     n_inlined += 1
+    return n_inlined
+
+
+def inline_flag_locals(tree: ast.AST) -> int:
+    """A boolean flag that is assigned once (`has_x = x is not False`) and then used in several
+    tests is the same program as those tests written out. Every use of such a name *inside a test*
+    (if / while / conditional expression / assert) is given the defining expression when
+      - the name has exactly one store in the function,
+      - the defining expression is side-effect free (comparisons / boolean operators over names,
+        attributes, constants and pure builtins), and
+      - every local name it mentions has itself exactly one store (parameters: none), so the value
+        cannot differ between the definition and the use.
+    The assignment itself is kept."""
+    import copy as _copy
+    n_inlined = 0
+    for fn in [x for x in ast.walk(tree) if isinstance(x, (ast.FunctionDef, ast.AsyncFunctionDef))]:
+        stores = {}
+        for x in ast.walk(fn):
+            if isinstance(x, ast.Name) and isinstance(x.ctx, (ast.Store, ast.Del)):
+                stores.setdefault(x.id, []).append(x)
+            if isinstance(x, (ast.For, ast.AsyncFor, ast.comprehension)):
+                for y in ast.walk(x.target):
+                    if isinstance(y, ast.Name):
+                        stores.setdefault(y.id, []).append(y)
+                        stores[y.id].append(y)  # loop variables change: never "single store"
+        params = {a.arg for a in fn.args.posonlyargs + fn.args.args + fn.args.kwonlyargs}
+        flags = {}
+        for st in ast.walk(fn):
+            if not (isinstance(st, ast.Assign) and len(st.targets) == 1 and isinstance(st.targets[0], ast.Name)):
+                continue
+            nm = st.targets[0].id
+            if len(stores.get(nm, [])) != 1 or nm in params:
+                continue
+            v = st.value
+            if not (isinstance(v, (ast.Compare, ast.BoolOp)) or (isinstance(v, ast.UnaryOp) and isinstance(v.op, ast.Not))):
+                continue
+            if not _is_boolish(v):
+                continue
+            ok = True
+            for x in ast.walk(v):
+                if isinstance(x, ast.Name) and isinstance(x.ctx, ast.Load):
+                    if x.id in params:
+                        if stores.get(x.id):
+                            ok = False
+                    elif len(stores.get(x.id, [])) > 1:
+                        ok = False
+                if isinstance(x, (ast.Attribute, ast.Subscript)):
+                    ok = False  # attribute / item values may change between definition and use
+            if ok:
+                flags[nm] = v
+        if not flags:
+            continue
+
+        class R(ast.NodeTransformer):
+            def visit_Name(self, node):
+                nonlocal n_inlined
+                if isinstance(node.ctx, ast.Load) and node.id in flags:
+                    n_inlined += 1
+                    return ast.copy_location(_copy.deepcopy(flags[node.id]), node)
+                return node
+
+        for holder in ast.walk(fn):
+            if isinstance(holder, (ast.If, ast.While, ast.IfExp, ast.Assert)):
+                holder.test = R().visit(holder.test)
+        ast.fix_missing_locations(fn)
     return n_inlined
 
 
@@ -229,6 +297,7 @@ class Tree:
                 if os.environ.get("SA_NO_CANON") != "1":
                     split_chained_compares(tree)
                     inline_condition_temps(tree)
+                    inline_flag_locals(tree)
                     canon_compares(tree)
                 mod = Module(rel, path, src, tree, sha)
                 _link(tree, mod)
